@@ -133,7 +133,13 @@ def gen_cat_spec(seed):
         if vary and r and rng.random() < 0.5:
             # out_every changed in the parameter file of this restart
             strides = {rl: 2 ** (nlev - 1 - rl) * int(rng.choice([1, 2, 4])) for rl in range(nlev)}
-        its = {rl: list(range(start, start + length * bs + 1, strides[rl])) for rl in range(nlev)}
+        # the run may stop anywhere (coarse levels then end earlier than the
+        # restart's last iteration) and the finest level may appear late (regrid)
+        tail = int(rng.integers(0, bs)) if (length and rng.random() < 0.5) else 0
+        its = {rl: list(range(start, start + length * bs + tail + 1, strides[rl])) for rl in range(nlev)}
+        if nlev >= 2 and length and rng.random() < 0.25:
+            k = int(rng.integers(1, max(2, len(its[nlev - 1]) - 1)))
+            its[nlev - 1] = its[nlev - 1][k:] or its[nlev - 1][-1:]
         rs = dict(its=its, rtag=r + 1)
         if grow and spec['grouped'] and r < nres // 2:
             rs['vars'] = [v for v in spec['vars'] if v != 'tau']
@@ -339,11 +345,14 @@ def check_overall(res, cat, spec, nshow, seq):
         got = set()
         for seg in ov[key]:
             got |= set(range(seg[0], seg[1] + 1, seg[2])) if len(seg) == 3 else {seg[0]}
-        # (segments of consecutive restarts with the same stride are merged by
-        #  design, so the summary may over-approximate; it must not lose data)
         if not want <= got:
             common.add_violation(res, "overall summary does not cover the iterations on disk",
                                  {"level": rl, "segments": ov[key], "missing": sorted(want - got)[:5],
+                                  "sequence": seq})
+            return False
+        if not got <= want:
+            common.add_violation(res, "overall summary lists iterations that are not on disk",
+                                 {"level": rl, "segments": ov[key], "extra": sorted(got - want)[:5],
                                   "sequence": seq})
             return False
     return True
